@@ -13,5 +13,5 @@ Next == /\ x = 0 /\ x' = 1
               termlen |-> [k \in 1..44 |-> TermLen(AllVersions[k])],
               total |-> [k \in 1..44 |-> TotalCodewords(AllVersions[k])],
               layout |-> [k \in 1..44 |-> LET v == AllVersions[k] IN [e \in {"L","M","Q","H","-"} |-> IF HasLevel(v, e) THEN Layout(v, e) ELSE <<>>]],
-              selfcheck |-> GFSelfCheck /\ ISOSelfCheck ])>>)
+              selfcheck |-> GFSelfCheck(0) /\ ISOSelfCheck(0) ])>>)
 =============================================================================
